@@ -1,6 +1,7 @@
 package main
 
 import (
+	"math"
 	"fmt"
 	"strconv"
 	"strings"
@@ -262,6 +263,14 @@ func genC11(r *Rand, n int, thorough bool, emit func(string)) {
 			}
 		}
 		emit(fmt.Sprintf("padrange %s %d", hx(txt), w))
+		if i%60 == 13 {
+			// numerals at the ends of the integer range, as single frames and as range ends
+			ext := r.Pick([]string{"-9223372036854775808", "9223372036854775807", "-9223372036854775807"})
+			// (spans stay small: the observation compares the frame lists)
+			t := r.Pick([]string{ext, ext + ",7", "1-5," + ext, ext + "-" + ext + "x2",
+				"-9223372036854775808--9223372036854775806", "9223372036854775805-9223372036854775807x2"})
+			emit(fmt.Sprintf("padrange %s %d", hx(t), r.PickInt([]int{2, 3, 19, 20, 21, 24})))
+		}
 		if i%40 == 7 {
 			// many components (13-40), every count in turn
 			cnt := 13 + (i/40)%28
@@ -416,6 +425,10 @@ func genRangeText(r *Rand) string {
 
 func seqQueries(r *Rand, txt string, st fileseq.PadStyle) (qf, qi []int) {
 	qf = []int{0, 1, -1, 7, -12, 123, 100000, -99999, r.Range(-2000, 2000)}
+	if r.Chance(1, 6) {
+		// the ends of the integer range (a sign that cannot be negated away)
+		qf = append(qf, math.MinInt64, math.MaxInt64, math.MinInt64+1)
+	}
 	qi = []int{-1, 0, 1}
 	if s, err := fileseq.NewFileSequencePad(txt, st); err == nil {
 		ln := s.Len()
